@@ -294,7 +294,7 @@ Definition verdicts (t : tbl) (d : dens) (cm : cmdict) (c : c05case) : list (str
       map (fun q => (cq_name q, chk_cquery E ch q)) qs
   | CF0 a qs =>
       (* Xray.f0: fxrayatq(symbol=self.element.symbol, charge=self.element.charge) *)
-      match cm_lookup cm (cm_symbol (xray_symbol EB05 a) (Some (aq a))) with
+      match cm_lookup cm (cm_symbol (f0_symbol EB05 a) (Some (aq a))) with
       | Some f => map (fun qr => ("xray.f0"%string, chk_f0 f (fst qr) (snd qr))) qs
       | None => map (fun qr => ("xray.f0 without coefficients: KeyError"%string, v_is KeyErr (snd qr))) qs
       end
